@@ -1,5 +1,11 @@
-(* C07 — connections exist only after a nonce-validated 3-way handshake. Statements only (EndpointProofs.v). *)
-From UF Require Import Consts Base Frame Codec HalfConn Endpoint EndpointProofs.
+(* C07 — connections exist only after a nonce-validated 3-way handshake. Statements only (EndpointProofs.v,
+   HandshakeHistory.v). Per handler, for all states and frames: Connect soundness, forged / stale / duplicated
+   handshake frames are the identity, refusals, symmetric derivation. Over whole histories: a client reports
+   Connect only in a step whose datagrams include a SYN+ACK echoing the nonce it chose at connect(); a server
+   reports Connect for an address only in a step whose datagrams include, from that address, an ACK carrying a
+   nonce that the server has sent to that very address in a SYN+ACK. (That the nonce is unguessable is outside
+   the logic: nonces are inputs of the model.) *)
+From UF Require Import Consts Base Frame Codec HalfConn Endpoint EndpointProofs EndpointTotal ServerBytes HandshakeHistory.
 
 Theorem C07_server_connect_sound :
   forall s a addr na now vnow s' a',
@@ -91,5 +97,32 @@ Theorem C07_agreement :
     cfg_tx_alloc_limit cc = u32_clamp (ec_max_receive_alloc ecs) /\ cfg_rx_alloc_limit cs = ec_max_receive_alloc ecs /\
     cfg_tx_alloc_limit cs = u32_clamp (ec_max_receive_alloc ecc) /\ cfg_rx_alloc_limit cc = ec_max_receive_alloc ecc.
 Proof. exact handshake_agreement. Qed.
+
+(* whole histories *)
+Theorem C07_client_connect_history :
+  forall ec nonce t0 seed ops vnow inbox c' evs sends,
+    client_step (fold_left cl_apply ops (fst (client_connect ec nonce t0 seed))) vnow inbox = Ok (c', evs, sends) ->
+    In (EvConnect 0) evs -> has_syn_ack nonce inbox.
+Proof. exact client_connect_history. Qed.
+Print Assumptions C07_client_connect_history.
+
+Theorem C07_server_connect_history :
+  forall cfg t0 seed ops vnow inbox nonces s' evs sends rest x,
+    let '(s, _, Ou) := fold_left sv_run_op ops (server_new cfg t0 seed, [], []) in
+    server_step s vnow inbox nonces = Ok (s', evs, sends, rest) ->
+    In (EvConnect x) evs -> inbox_justifies (Ou ++ sends) inbox x.
+Proof. exact server_connect_history. Qed.
+Print Assumptions C07_server_connect_history.
+
+(* non-vacuity: a handshake from address 5 (request, then the ACK of the nonce 99 the server drew) connects; an ACK
+   with another nonce, or the right nonce from another address, does not *)
+Example C07_history_example :
+  let cfg := mkSvConfig 4 2 true (mkEpConfig 100000 100000 1000 10000 false 1000 20000) in
+  let syn := write_handshake_syn PROTOCOL_VERSION 77 100000 1000 10000 in
+  let run ops := let '(_, E, _) := fold_left sv_run_op ops (server_new cfg 0 1, [], []) in E in
+  run [SvStep 0 [(5, syn)] [99]; SvStep 10 [(5, write_handshake_ack 99)] []] = [EvConnect 5] /\
+  run [SvStep 0 [(5, syn)] [99]; SvStep 10 [(5, write_handshake_ack 98)] []] = [] /\
+  run [SvStep 0 [(5, syn)] [99]; SvStep 10 [(6, write_handshake_ack 99)] []] = [].
+Proof. vm_compute. repeat split. Qed.
 
 Check C07_server_connect_sound.
